@@ -30,3 +30,32 @@ fn c15_separator_key_contract() {
     kani::cover!(left.len() < ll, "the key was really shortened");
     std::mem::forget(left);
 }
+
+/// Order enforcement across a block boundary: `Writer::insert_key` does not compare the first key
+/// of a block with its predecessor itself; the comparison happens here, when the previous block's
+/// last key is shortened against the next key. A pair that is not strictly increasing
+/// (equal, smaller, or a strict prefix the wrong way round) must be refused - the internal
+/// `assert!` fires (listed as the expected panic of this obligation) and control never comes
+/// back. Reaching the end of this harness means an unordered pair was accepted.
+#[kani::proof]
+#[kani::unwind(6)]
+fn c15_separator_refuses_unordered_pair() {
+    let lb: [u8; 3] = kani::any();
+    let rb: [u8; 3] = kani::any();
+    let ll: usize = kani::any();
+    let rl: usize = kani::any();
+    kani::assume(ll <= 3 && rl <= 3);
+    kani::assume(&lb[..ll] >= &rb[..rl]);
+    let mut left: Vec<u8> = Vec::with_capacity(4);
+    let mut i = 0;
+    while i < 3 {
+        if i < ll {
+            left.push(lb[i]);
+        }
+        i += 1;
+    }
+    kani::cover!(ll == rl && ll == 2, "two keys of equal length");
+    find_shorter_str_in_between(&mut left, &rb[..rl]);
+    std::mem::forget(left);
+    panic!("an unordered pair of keys was accepted at a block boundary");
+}
